@@ -1729,7 +1729,7 @@ impl Analyzable for Expression
 			} =>
 			{
 				let name = array.get_identifier();
-				let put_result = if element_type.is_some()
+				let put_result = if let Some(Ok(_)) = &element_type
 				{
 					let result = typer.put_symbol(&name, element_type.clone());
 					typer.contextual_type = element_type;
@@ -1760,6 +1760,30 @@ impl Analyzable for Expression
 					Ok(()) =>
 					{
 						let element_type = typer.get_symbol(&name.inferred());
+						// Not every type can be the element type of an array.
+						let element_type = match element_type
+						{
+							Some(Ok(vt)) =>
+							{
+								let array_type = ValueType::Array {
+									element_type: Box::new(vt.clone()),
+									length: array.elements.len(),
+								};
+								if array_type.is_wellformed()
+								{
+									Some(Ok(vt))
+								}
+								else
+								{
+									let error = Error::IllegalType {
+										value_type: array_type,
+										location: array.location.clone(),
+									};
+									Some(Err(error.into()))
+								}
+							}
+							other => other,
+						};
 						Expression::ArrayLiteral {
 							array,
 							element_type,
